@@ -167,7 +167,7 @@ def build(shape):
                 items.append(dict(kind=c, w=w))
                 vals.append(Enum(I(KERN), {KERN: [Agg([scaled(w), Enum(I(1 if c == "K" else 0), {}, "KernKind")])]}, "Horizontal"))
             elif c == "P":
-                p = iv(f"p{i}", -9999, 9999)
+                p = iv(f"p{i}", -20000, 9999)  # <= -10000: a forced break (TeX.2021.831 clamps it to eject_penalty)
                 items.append(dict(kind="P", p=p))
                 vals.append(Enum(I(PENALTY), {PENALTY: [Agg([p])]}, "Horizontal"))
             else:
@@ -255,6 +255,9 @@ def sequences(a):
     for mask in range(1 << len(lb)):
         seq = [lb[i] for i in range(len(lb)) if mask >> i & 1] + [n]
         feas, total, prev, cls = tm.TRUE, I(0), None, I(2)
+        for q in lb:
+            if q not in seq and a["items"][q]["kind"] == "P":
+                feas = tm.and_(feas, tm.gt(a["items"][q]["p"], I(-10000)))  # a forced break cannot be passed over
         for to in seq:
             over, b, c, pen = line_quality(a, prev, to)
             feas = tm.and_(feas, tm.not_(over), tm.le(b, a["tol"]))
@@ -349,5 +352,5 @@ def obligation(kinds, rs_order=NORMAL, **kw):
                 witnesses=witnesses(shape), native=native_spec(shape),
                 funcs=["boxworks_knuthplass::LineBreaker::break_line_single_attempt (generic MIR; try_break inlined), Diffs, Scaled64 ops, badness, demerits, num_nodes_for_next_class, ds::Horizontal::precedes_break (all from the dump); Vec/VecDeque/iterators modelled"],
                 bound=(f"horizontal list of shape {kinds} (R rule, G finite glue, F fil glue, P penalty, K explicit kern, k font kern): {n_b} interior legal breakpoint(s), "
-                       "every width/stretch/shrink in [0, 2^28], penalties in (-10000, 10000), one line width, tolerance in [0, 10000], line_penalty in [0, 10000], adj_demerits in [0, 2^20], "
+                       "every width/stretch/shrink in [0, 2^28], penalties in [-20000, 10000) (forced breaks included), one line width, tolerance in [0, 10000], line_penalty in [0, 10000], adj_demerits in [0, 2^20], "
                        "symbolic right_skip, looseness 0, force_solution false, emergency_stretch 0"))
